@@ -82,10 +82,10 @@ pub fn run(tier: Tier, seed: u64) -> i32 {
     // Q & R and Q * R: a zero left operand must not hide a Z/X right operand (evaluation is strict)
     let wdecls: Vec<Option<Expr>> = vec![None, Some(un(UnOp::Not, rr())), Some(bin(BinOp::Eq, q(), rr())), Some(bin(BinOp::And, q(), rr())), Some(bin(BinOp::Mul, q(), bin(BinOp::Shl, rr(), q())))];
     let headers: Vec<Vec<&str>> = vec![vec!["A", "Q", "V", "W"], vec!["A", "V"], vec!["A", "Q"], vec!["A", "W", "Q"]];
-    let vals = [V::Num(0), V::Num(1), V::Num(2), V::Z, V::X];
+    let vals: Vec<V> = tier.pick(vec![V::Num(0), V::Num(1), V::Z, V::X], vec![V::Num(0), V::Num(1), V::Num(2), V::Z, V::X]);
     let mut menu = vec![];
-    for a in vals {
-        for b in vals {
+    for &a in &vals {
+        for &b in &vals {
             menu.push(MenuItem::ans(vec![("Q".into(), a), ("R".into(), b)]));
         }
     }
@@ -208,7 +208,7 @@ pub fn run(tier: Tier, seed: u64) -> i32 {
         id: "C14",
         tier,
         seed,
-        rule: "explicit-state BFS (stateright): every declaration set (V in {none, Q+1, Q*2+R, 7, (Q<<60)} x W in {none, !R, Q=R, Q&R, Q*(R<<Q)}) x 5 placements (before, between, after the rows, inside a loop body, split) x 5 shadowing variants (none, let Q, rows inside loop(Q,2), let V, let R inside a loop) x 4 headers (virtual columns present / absent / reordered) that bind; four source rows incl. a clock row; every output-reading call answers (Q,R) in {0,1,2,Z,X}^2 so every pair of consecutive answers is a transition; the caller carries on after an error item; distinct_nontrivial = unique states".into(),
+        rule: "explicit-state BFS (stateright): every declaration set (V in {none, Q+1, Q*2+R, 7, (Q<<60)} x W in {none, !R, Q=R, Q&R, Q*(R<<Q)}) x 5 placements (before, between, after the rows, inside a loop body, split) x 5 shadowing variants (none, let Q, rows inside loop(Q,2), let V, let R inside a loop) x 4 headers (virtual columns present / absent / reordered) that bind; four source rows incl. a clock row; every output-reading call answers (Q,R) in {0,1,Z,X}^2 (quick) / {0,1,2,Z,X}^2 (thorough) so every pair of consecutive answers is a transition; the caller carries on after an error item; distinct_nontrivial = unique states".into(),
         assumptions: vec![
             "reference interpreter evaluates each declaration over the answer of the same call with no variables visible; virtual entries are matched by name (their mutual order is C15's)".into(),
         ],
